@@ -285,6 +285,10 @@ def finish(res, tier, seed, level, rule, evaluations, distinct, coverage_extra=N
     for old_f in os.listdir(os.path.join(REPLAY, prop)):
         if old_f.endswith(".json"):
             os.unlink(os.path.join(REPLAY, prop, old_f))
+    if other:
+        # not this property's verdict, but never silent: the owning check may not generate the same case
+        osigs = sorted(set(v["sig"] for v in other))
+        print("NOTE: %d observation(s) that belong to other properties were made during this run (their own checks decide them): %s" % (len(other), "; ".join(osigs[:6])))
     by_sig = {}
     for v in mine:
         by_sig.setdefault(v["sig"], []).append(v)
